@@ -202,14 +202,14 @@ class IsoName:
             name: The 64-bit NAME field value as an integer.
         """
         self.name = name
-        self.unique_number = message.get_field_int_value_by_id('uniqueNumber', 0)
+        # every bit pattern of a NAME is data: the numeric parts are taken from the NAME itself, so that
+        # all-ones sub-fields are not mistaken for "not available"
+        self.unique_number = name & 0x1FFFFF
         self.manufacturer_code = message.get_field_str_value_by_id('manufacturerCode')  # type: ignore
-        self.device_instance = (
-            message.get_field_int_value_by_id('deviceInstanceUpper', 0) << 3
-        ) | message.get_field_int_value_by_id('deviceInstanceLower', 0)
+        self.device_instance = (name >> 32) & 0xFF
         self.device_function = message.get_field_str_value_by_id('deviceFunction')  # type: ignore
         self.device_class = message.get_field_str_value_by_id('deviceClass')  # type: ignore
-        self.system_instance = message.get_field_int_value_by_id('systemInstance', 0)
+        self.system_instance = (name >> 56) & 0x0F
         self.industry_group = message.get_field_str_value_by_id('industryGroup')  # type: ignore
         self.arbitrary_address_capable = message.get_field_str_value_by_id('arbitraryAddressCapable') == "Yes"
 
